@@ -159,7 +159,7 @@ func c14Case(op c14Op, tm terminator, n int) fw.Case {
 			for i := 1; i <= n; i++ {
 				push.Next(2*i - 1)
 				vrt.Settle()
-				vrt.Sleep(int64(u)) // lets zero-delay timers of time-driven operators fire
+				vrt.HSleep(int64(u)) // lets zero-delay timers of time-driven operators fire
 				vrt.Settle()
 			}
 			if tm.fire != nil {
@@ -171,7 +171,7 @@ func c14Case(op c14Op, tm terminator, n int) fw.Case {
 			} else {
 				fired = true
 			}
-			vrt.Sleep(int64(u))
+			vrt.HSleep(int64(u))
 			vrt.Settle()
 			subsAtQ, tearsAtQ, liveAtQuiescence, _ = src.Get()
 			_, returnedAtQ = env.returned()
@@ -261,7 +261,7 @@ func c14CtxCase(name string, mk func(src ro.Observable[int]) ro.Observable[int],
 				push.Next(2) // a context-checking operator notices the cancellation at the next notification at the latest
 				vrt.Settle()
 			}
-			vrt.Sleep(int64(10 * u))
+			vrt.HSleep(int64(10 * u))
 			vrt.Settle()
 			_, _, live, _ = src.Get()
 			_, ret = env.returned()
